@@ -394,7 +394,10 @@ fn run_inner(w: &mut World, s: &HistScenario) -> RunOut {
             }
             Op::DiskWrite { path, content, tail } => {
                 let mut bytes = content.text().into_bytes();
-                let meta = if tail.is_empty() { meta_of(content) } else { None };
+                // a tail that is a well-formed comment leaves the document what it was
+                let comment_tail = tail.is_empty()
+                    || (tail.starts_with(b"\n//") && std::str::from_utf8(tail).is_ok());
+                let meta = if comment_tail { meta_of(content) } else { None };
                 bytes.extend_from_slice(tail);
                 if let Some(dir) = &w.scratch {
                     let real = format!("{dir}/{}", disk_slot(path).trim_start_matches('/'));
@@ -579,7 +582,7 @@ fn run_inner(w: &mut World, s: &HistScenario) -> RunOut {
                                 w.count("c01_pathological_inputs_skipped");
                             }
                             let meta = match &on_disk {
-                                Some((_, m, t)) if *t == text => m.clone(),
+                                Some((b, m, _)) if b.as_slice() == text.as_bytes() => m.clone(),
                                 _ => None,
                             };
                             w.count("loads_ok");
